@@ -95,6 +95,12 @@ fn judge(ctx: &mut Ctx, a: &MV, b: &MV) {
     };
     ctx.sample(|| json!({"a": a.text(), "b": b.text(), "crate": got.0.map(|d| d.to_string()), "model": want}));
     let gs = got.0.map(|d| d.to_string());
+    if let Some(d) = got.0 {
+        if let Ok(Some(m)) = guarded(|| crate::observe::fmt_spec_mismatch(&d)) {
+            ctx.violation(&format!("display-under-format-spec/{}", cls), json!({"a": a.text(), "b": b.text()}), m);
+            return;
+        }
+    }
     if got.0 != got.1 {
         ctx.violation(&format!("asymmetric/{}", cls), json!({"a": a.text(), "b": b.text()}), format!("a.diff(b)={:?} but b.diff(a)={:?}", got.0, got.1));
         return;
